@@ -349,7 +349,11 @@ def run_split(rec, seed, shape, kw, split):
         stub = with_stub('optimal')
         sc = scen.run(D, shape, kw, split, with_output=False)
         res = sc.op.optimize()
-        return sc, res, list(stub.STATE.problems), list(stub.STATE.variables)
+        probs, vars_ = list(stub.STATE.problems), list(stub.STATE.variables)
+        # a second optimisation of the very same split problem object (e.g. first relaxed for a bound, then exactly; or with another solver)
+        res2 = sc.op.optimize()
+        sc.second = (res2, list(stub.STATE.problems)[len(probs):], list(stub.STATE.variables)[len(vars_):])
+        return sc, res, probs, vars_
     paths = lift.explore_build(build, level='A')
     rec.paths = len(paths)
     for pi, (path, D) in enumerate(paths):
@@ -376,6 +380,19 @@ def run_split(rec, seed, shape, kw, split):
             continue
         rec.twin(P + '/value', base, z3.BoolVal(False))
         rec.prove(P + '/value_is_sum', base, zl(res.value) == z3.Sum([zl(p.value) for p in probs]), form='Q2', info=dict(ob='split_value'))
+        # the second call on the same object returns the answers of ITS solves, nothing of the first call
+        res2, probs2, vars2 = sc.second
+        ok2 = (not isinstance(res2, str)) and len(probs2) == len(sc.ops) == len(vars2)
+        if ok2:
+            xcat2 = [v for var in vars2 for v in var.value]
+            ok2 = len(res2.x) == len(xcat2) and all(a is b for a, b in zip(res2.x, xcat2))
+        nm2 = P + '/second_call_x_is_concatenation'
+        rec.obligations.append(dict(name=nm2, verdict='unsat' if ok2 else 'sat', secs=0, form='Q2'))
+        rec.distinct.add(nm2)
+        if not ok2:
+            rec.candidates.append(dict(name=nm2, env=common.generic_point(base, D.names, seed) or {}, info=dict(ob='split_x2'), form='struct'))
+        else:
+            rec.prove(P + '/second_call_value_is_sum', base, zl(res2.value) == z3.Sum([zl(p.value) for p in probs2]), form='Q2', info=dict(ob='split_x2'))
         # nodal duals in the order of map_nodal_restr
         dn = res.duals.get('N') if isinstance(res.duals, dict) else None
         want = []
@@ -680,6 +697,9 @@ def stub_replay(kwargs, env, info):
                 vals.append(None if isinstance(r, str) else float(r.value))
             out.update(split_value=None if isinstance(res, str) else float(res.value), interval_values=vals,
                        n_x=None if isinstance(res, str) else len(res.x), n_c=len(sc.op.c))
+            if info.get('ob') == 'split_x2':
+                res_b = sc.op.optimize()           # second call on the same object
+                out.update(second_value=None if isinstance(res_b, str) else float(res_b.value), second_n_x=None if isinstance(res_b, str) else len(res_b.x))
             if not isinstance(res, str) and len(res.x) == len(sc.op.c):
                 # each part of the returned vector must be feasible for the interval problem it belongs to
                 from .. import obs as _obs
@@ -790,6 +810,10 @@ def judge(case, kwargs, cand, ans):
         return bad, 'optimize(make_soft_problem=True) on the relaxation with optimum x=(0.7, 7), value 3.5 returns x=%s, value %.6g (-c.x of the returned x: %.6g)' % (si['x'], si['value'], si['minus_cx'])
     if ob == 'split_status':
         return True, 'split optimisation returns a result although the solver reported %s for an interval' % info.get('status')
+    if ob == 'split_x2':
+        v1, v2 = o.get('split_value'), o.get('second_value')
+        bad = o.get('second_n_x') != o.get('n_c') or (v1 is not None and v2 is not None and abs(v1 - v2) > 1e-6 * max(1, abs(v1)))
+        return bad, 'second optimisation of the same split problem: value %s (first call %s), len(x) %s for %s variables' % (v2, v1, o.get('second_n_x'), o.get('n_c'))
     if ob in ('split_value', 'split_x', 'split_duals'):
         iv = o.get('interval_values') or []
         bad = o.get('n_x') != o.get('n_c') or (None not in iv and o.get('split_value') is not None and abs(sum(iv) - o['split_value']) > 1e-6 * max(1, abs(o['split_value'])))
